@@ -75,9 +75,27 @@ def run (c : Cat) : List Change → Cat
 /-- `DatasetManager.snapshot`: the metadata of every dataset -/
 def snapshot (c : Cat) : List Dataset := c
 
-/-- `DatasetManager.processSnapshot`: datasets that are not yet present are added; nothing is
-removed and nothing that is present is updated -/
+/-- `partition.setNodes` over the partitions of a dataset that is already present: every partition
+takes the replica list the snapshot gives it (matched by partition id); everything else about the
+dataset is what it was created with -/
+def reconcile (d s : Dataset) : Dataset :=
+  { d with parts := d.parts.map fun p =>
+      match s.parts.find? (·.id == p.id) with
+      | some q => { p with nodes := q.nodes }
+      | none => p }
+
+/-- `DatasetManager.processSnapshot` (after repair D17): the snapshot is the whole catalogue.
+Datasets it does not list are dropped, datasets that are present keep their object and take the
+snapshot's replica lists, missing ones are created from the snapshot. (The real catalogue is a
+map; the model lists it in the snapshot's order, observations are sorted by id.) -/
 def restore (c : Cat) (snap : List Dataset) : Cat :=
+  snap.map fun s => match find c s.id with
+    | some d => reconcile d s
+    | none => s
+
+/-- `processSnapshot` before the repair: datasets that are not yet present are added; nothing is
+removed and nothing that is present is updated -/
+def restoreAddOnly (c : Cat) (snap : List Dataset) : Cat :=
   snap.foldl (fun acc d => match find acc d.id with
     | some _ => acc
     | none => acc ++ [d]) c
